@@ -1079,6 +1079,9 @@ class TorConfig:
             # "FooPortLines"
             if name.endswith('PortLines'):
                 rn = self._find_real_name(name[:-5])
+                if rn != name[:-5] and name[:-5] in defaults:
+                    # (known under another spelling before we attached)
+                    defaults[rn] = defaults[name[:-5]]
                 self.parsers[rn] = String()  # not Port() because options etc
                 self.list_parsers.add(rn)
                 v = yield self.protocol.get_conf(name[:-5])
@@ -1126,6 +1129,11 @@ class TorConfig:
             v = v[name]
 
             rn = self._find_real_name(name)
+            if rn != name and name in defaults:
+                # known under another spelling before we attached
+                # (e.g. set on a config that was then launched): its
+                # default is looked up under that spelling from now on
+                defaults[rn] = defaults[name]
             self.parsers[rn] = inst
             if is_list_config_type(inst.__class__):
                 self.list_parsers.add(rn)
